@@ -959,3 +959,704 @@ def determinism_queries(transitions, chunk=400):
                               "(declare-const i Int)", f"(assert (and (<= 0 i) (< i {len(part) - 1})))",
                               "(assert (>= (K i) (K (+ i 1))))"]))
     return out
+
+
+# ==================================================================================================
+# per-state obligations (every state of the dumped automaton, unbounded suffixes)
+# ==================================================================================================
+
+def access_words(auto):
+    """state -> marked word (code points) of a shortest run from the initial state (BFS over the dump)."""
+    import collections
+    succ = collections.defaultdict(list)
+    for (s, b), (t, m) in sorted(auto.tr.items()):
+        succ[s].append((b, t, m))
+    acc = {auto.init: []}
+    dq = collections.deque([auto.init])
+    while dq:
+        s = dq.popleft()
+        for b, t, m in succ[s]:
+            if t not in acc:
+                acc[t] = acc[s] + [b + 256 * m]
+                dq.append(t)
+    return acc, succ
+
+
+def completion_words(auto):
+    """state -> marked word leading to a final state (shortest), for the states that have one."""
+    import collections
+    pred = collections.defaultdict(list)
+    for (s, b), (t, m) in sorted(auto.tr.items()):
+        pred[t].append((s, b, m))
+    comp = {f: [] for f in auto.final}
+    dq = collections.deque(sorted(auto.final))
+    while dq:
+        t = dq.popleft()
+        for s, b, m in pred[t]:
+            if s not in comp:
+                comp[s] = [b + 256 * m] + comp[t]
+                dq.append(s)
+    return comp
+
+
+def parse_smt_string(lit):
+    """SMT-LIB 2.6 string literal body (without the outer quotes) -> code points."""
+    out, i = [], 0
+    hexd = "0123456789abcdefABCDEF"
+    while i < len(lit):
+        ch = lit[i]
+        if ch == '"' and lit[i:i + 2] == '""':
+            out.append(0x22)
+            i += 2
+        elif lit[i:i + 3] == '\\u{':
+            j = lit.index('}', i)
+            out.append(int(lit[i + 3:j], 16))
+            i = j + 1
+        elif lit[i:i + 2] == '\\u' and i + 6 <= len(lit) and all(c in hexd for c in lit[i + 2:i + 6]):
+            out.append(int(lit[i + 2:i + 6], 16))
+            i += 6
+        else:
+            out.append(ord(ch))
+            i += 1
+    return out
+
+
+def string_model(qtext, var, timeout):
+    """qtext was answered sat: ask z3-new for the value of the String `var` (the framework's solve() only
+    parses Int/Bool values). Returns code points or None."""
+    import re
+    text = qtext + f"\n(check-sat)\n(get-value ({var}))\n"
+    try:
+        p = subprocess.run(["z3-new", "-in", f"-T:{int(timeout)}"], input=text, capture_output=True, text=True, timeout=timeout + 5)
+    except subprocess.TimeoutExpired:
+        return None
+    out = p.stdout
+    if not out.startswith("sat"):
+        return None
+    m = re.search(r'\(\(' + re.escape(var) + r'\s+"((?:[^"]|"")*)"\)\)', out, re.S)
+    if not m:
+        return None
+    return parse_smt_string(m.group(1))
+
+
+def decide_states(run, obs, rjson, auto, variant=None, spec=None, timeout=120, chunk=64):
+    """obs = (ob_missing, ob_present, ob_final). For every reachable state s of the dumped automaton, with
+    u_s a concrete access word and v_t a concrete accepted completion of t:
+      missing:  L  ∩  u_s · (Sigma \\ letters_s) · Sigma*  = {}       (no letter of the language is absent)
+      present:  u_s · letters_{s->t} · v_t  is a subset of L            (every transition class, with its marker);
+                for t without accepting continuation:  L ∩ u_s · letters_{s->t} · Sigma* = {}
+      final:    s final  <=>  u_s in L
+    Each is one regular-language emptiness query per chunk of states (all letters / all suffixes
+    symbolic inside the solver)."""
+    spec = spec or {"r": rjson}
+    ob_b, ob_c, ob_d = obs
+    try:
+        corex = core_of(rjson, variant)
+    except Outside as ex:
+        for ob in obs:
+            ob.nontrivial = False
+            ob.set(INCONCLUSIVE, f"outside the claim: {ex}")
+        return
+    em = RegLanEmitter()
+    top = em.term(corex)
+    M = sorted(core_markers(corex) | {m for _, _, _, m in auto.raw} | {0})
+    sigma = mkset(b + 256 * m for b in range(256) for m in M)
+    sig = em.setterm(sigma)
+    acc, succ = access_words(auto)
+    comp = completion_words(auto)
+    base = ["(set-logic ALL)"] + em.defs + ["(declare-const x String)"]
+    states = sorted(acc)
+    memo = {}
+    unreachable = [s for s in range(auto.nb) if s not in acc]
+    dead = [s for s in states if s not in comp]
+
+    def violation(ob, cps, kind):
+        w = [c & 255 for c in cps]
+        m = [c >> 8 for c in cps]
+        in_ref = ref_match(corex, cps, memo)
+        real, raw = real_verdict(spec, w, m)
+        if real is None:
+            return ob.set(INCONCLUSIVE, f"counterexample could not be replayed: {raw}")
+        if real != in_ref:
+            path = run.write_replay(ob, dict(kind="regex-word", spec=spec, r=rjson, variant=variant, word=w, markers=m,
+                                             in_reference_language=in_ref, real_accepts_with_these_markers=real, real_run=raw))
+            return ob.set(VIOLATION, f"[{kind}] the real automaton {'accepts' if real else 'does not accept'} {bytes(w)[:80]!r} (len {len(w)}) with markers {m[:40]} "
+                                     f"but the word {'is' if in_ref else 'is not'} in the language of the expression", solver="z3-new", replay=path)
+        return ob.set(INCONCLUSIVE, f"[{kind}] model does not replay (real={real}, reference matcher={in_ref})")
+
+    def union(branches):
+        return branches[0] if len(branches) == 1 else "(re.union " + " ".join(branches) + ")"
+
+    # ---- missing letters -----------------------------------------------------------------------
+    ok = True
+    had_twin = False
+    for i in range(0, len(states), chunk):
+        branches, twins = [], []
+        for s in states[i:i + chunk]:
+            present = {b + 256 * m for b, t, m in succ[s]}
+            missing = mkset(c for c in set_members(sigma) if c not in present)
+            if missing[1]:
+                branches.append(f"(re.++ (str.to_re {smt_str(acc[s])}) {em.setterm(missing)} (re.* {sig}))")
+            if present:
+                twins.append(f"(re.++ (str.to_re {smt_str(acc[s])}) {em.setterm(mkset(present))} (re.* {sig}))")
+        if not branches:
+            continue
+        q = "\n".join(base + [f"(assert (str.in_re x (re.inter {top} {union(branches)})))"])
+        r = solve_z3(q, timeout)
+        ob_b.queries += 1
+        ob_b.solver_s += r.time_s
+        if r.status == "sat":
+            cps = string_model(q, "x", timeout)
+            if cps is None:
+                ob_b.set(INCONCLUSIVE, "sat but no string model")
+            else:
+                violation(ob_b, cps, "missing transition")
+            ok = False
+            break
+        if r.status != "unsat":
+            ob_b.set(INCONCLUSIVE, f"solver {r.status} {r.raw[:160]}")
+            ok = False
+            break
+        if twins and not ob_b.vacuity:
+            had_twin = True
+            rv = solve_z3("\n".join(base + [f"(assert (str.in_re x (re.inter {top} {union(twins)})))"]), timeout)
+            ob_b.queries += 1
+            ob_b.vacuity = rv.status == "sat"
+    if ok:
+        if not ob_b.vacuity:
+            if not had_twin:
+                ob_b.vacuity = True
+            ob_b.detail = "no transition of the automaton continues a word of the language (empty language or epsilon only)"
+        ob_b.set(HOLDS, solver="z3-new")
+    # ---- present classes -----------------------------------------------------------------------
+    ok = True
+    notes = []
+    if unreachable:
+        notes.append(f"{len(unreachable)} states of the dump are unreachable (ignored: they cannot affect any run)")
+    if dead and (auto.final or auto.tr):
+        notes.append(f"{len(dead)} reachable states have no accepting continuation")
+    groups, deadgroups = [], []
+    for s in states:
+        byt = {}
+        for b, t, m in succ[s]:
+            byt.setdefault(t, []).append(b + 256 * m)
+        for t, cps in sorted(byt.items()):
+            (groups if t in comp else deadgroups).append((s, t, cps))
+    step = chunk * 2
+    for i in range(0, max(len(groups), len(deadgroups)), step):
+        if not ok:
+            break
+        qs = []
+        g = groups[i:i + step]
+        if g:
+            u = union([f"(re.++ (str.to_re {smt_str(acc[s])}) {em.setterm(mkset(cps))} (str.to_re {smt_str(comp[t])}))" for s, t, cps in g])
+            qs.append(("transition leaves the language", f"(re.inter {u} (re.comp {top}))", f"(re.inter {u} {top})"))
+        g = deadgroups[i:i + step]
+        if g:
+            u = union([f"(re.++ (str.to_re {smt_str(acc[s])}) {em.setterm(mkset(cps))} (re.* {sig}))" for s, t, cps in g])
+            qs.append(("transition into a dead state drops a word of the language", f"(re.inter {u} {top})", None))
+        for kind, bad, twin in qs:
+            q = "\n".join(base + [f"(assert (str.in_re x {bad}))"])
+            r = solve_z3(q, timeout)
+            ob_c.queries += 1
+            ob_c.solver_s += r.time_s
+            if r.status == "sat":
+                cps = string_model(q, "x", timeout)
+                if cps is None:
+                    ob_c.set(INCONCLUSIVE, "sat but no string model")
+                else:
+                    violation(ob_c, cps, kind)
+                ok = False
+                break
+            elif r.status != "unsat":
+                ob_c.set(INCONCLUSIVE, f"solver {r.status} {r.raw[:160]}")
+                ok = False
+                break
+            elif twin and not ob_c.vacuity:
+                rv = solve_z3("\n".join(base + [f"(assert (str.in_re x {twin}))"]), timeout)
+                ob_c.queries += 1
+                ob_c.vacuity = rv.status == "sat"
+    if ok:
+        if not groups:
+            ob_c.vacuity = True
+            notes.append("no transition reaches an accepting state")
+        ob_c.set(HOLDS, solver="z3-new", detail="; ".join(notes))
+    # ---- final states ---------------------------------------------------------------------------
+    for i in range(0, len(states), chunk * 2):
+        L = ["(set-logic ALL)"] + em.defs
+        names = []
+        for s in states[i:i + chunk * 2]:
+            L.append(f"(define-fun in{s} () Bool (str.in_re {smt_str(acc[s])} {top}))")
+            names.append(f"in{s}")
+        L.append("(assert (or false " + " ".join(f"(not (= in{s} {'true' if s in auto.final else 'false'}))" for s in states[i:i + chunk * 2]) + "))")
+        r = solve_z3("\n".join(L), timeout, names)
+        ob_d.queries += 1
+        ob_d.solver_s += r.time_s
+        if r.status == "sat":
+            bad = [s for s in states[i:i + chunk * 2] if r.model.get(f"in{s}") != (s in auto.final)]
+            violation(ob_d, acc[bad[0]], "final-state flag")
+            break
+        if r.status != "unsat":
+            ob_d.set(INCONCLUSIVE, f"solver {r.status} {r.raw[:160]}")
+            break
+    else:
+        ob_d.nontrivial = False      # ground: concrete access words
+        ob_d.vacuity = True
+        ob_d.set(HOLDS, solver="z3-new")
+
+
+# ==================================================================================================
+# regex family
+# ==================================================================================================
+
+def _b(*bs):
+    return {"op": "byte_from", "set": [x if isinstance(x, int) else ord(x) for x in bs]}
+
+
+def _w(s):
+    return {"op": "word", "s": list(s.encode())}
+
+
+def _u(op, x, **kw):
+    return dict({"op": op, "x": x}, **kw)
+
+
+def _bin(op, x, y):
+    return {"op": op, "x": x, "y": y}
+
+
+def _n(op, xs, **kw):
+    return dict({"op": op, "xs": list(xs)}, **kw)
+
+
+def fixed_family():
+    """every public combinator applied to leaf classes (boundary members, always included).
+    -> list of (id, role key, R)"""
+    a, b_, c_ = _b('a'), _b('b'), _b('c')
+    abc = _b('a', 'b', 'c')
+    ab = _w("ab")
+    comma = _w(",")
+    dig = {"op": "digit"}
+    anyb = {"op": "any_byte"}
+    F = []
+    add = lambda i, r, key=None: F.append((i, key or "regex:" + i.split("[")[0], r))
+    # leaves
+    add("byte_from", abc)
+    add("byte_from[empty]", _b())
+    add("byte_not_from", {"op": "byte_not_from", "set": [97, 98, 0, 255]})
+    for leaf in ("any_byte", "epsilon", "digit", "lowercase_letter", "uppercase_letter", "letter", "alphanumeric",
+                 "one_blank", "blanks", "blanks_strict", "utf8_cps", "utf8"):
+        add(leaf, {"op": leaf})
+    add("word", _w("hello"))
+    add("word[empty]", _w(""))
+    # boolean structure
+    add("union", _n("union", [ab, dig, _w("a")]))
+    add("union[empty]", _n("union", []))
+    add("or", _bin("or", ab, _u("list", a)))
+    add("cat", _n("cat", [a, _u("list", b_), c_]))
+    add("cat[empty]", _n("cat", []))
+    add("terminated", _bin("terminated", _u("non_empty_list", a), _u("list", _b('a', 'b'))))
+    add("spaced_terminated", _bin("spaced_terminated", ab, dig))
+    add("inter", _n("inter", [_u("list", abc), _n("cat", [anyb, anyb, anyb]), _u("neg", _w("abc"))]))
+    add("inter[single]", _n("inter", [ab]))
+    add("and", _bin("and", _u("list", _b('a', 'b')), _n("cat", [anyb, a, _u("list", anyb)])))
+    add("neg", _u("neg", ab))
+    add("neg[class]", _u("neg", dig))
+    add("neg[star]", _u("neg", _u("list", _b('a', 'b'))))
+    add("neg[neg]", _u("neg", _u("neg", ab)))
+    add("neg[contains]", _u("neg", _n("cat", [{"op": "any"}, _w("dd"), {"op": "any"}])))
+    add("minus", _bin("minus", _u("list", abc), _n("cat", [_u("list", abc), _w("cc"), _u("list", abc)])))
+    add("minus[self]", _bin("minus", ab, ab))
+    add("any[cat]", _n("cat", [a, {"op": "any"}, b_]))
+    add("any[minus]", _bin("minus", {"op": "any"}, _u("list", _b('a', 'b'))))
+    add("optional", _u("optional", ab))
+    add("optional[nullable]", _u("optional", _u("list", a)))
+    # iteration
+    for op in ("list", "non_empty_list", "spaced_list", "spaced_non_empty_list"):
+        add(op, _u(op, ab))
+        add(op + "[nullable]", _u(op, _u("optional", a)))
+    for op in ("separated_list", "separated_non_empty_list", "spaced_separated_list", "spaced_separated_non_empty_list"):
+        add(op, _u(op, _u("non_empty_list", dig), sep=comma))
+    add("separated_list[nullable]", _u("separated_list", _u("list", a), sep=_u("optional", comma)))
+    for n in (0, 1, 3):
+        add(f"repeat[{n}]", _u("repeat", ab, n=n))
+        add(f"repeat_at_most[{n}]", _u("repeat_at_most", _b('a', 'b'), n=n))
+    add("spaced_repeat[2]", _u("spaced_repeat", ab, n=2))
+    add("spaced_repeat_at_most[2]", _u("spaced_repeat_at_most", a, n=2))
+    add("separated_repeat[3]", _u("separated_repeat", dig, n=3, sep=comma))
+    add("separated_repeat[0]", _u("separated_repeat", dig, n=0, sep=comma))
+    add("spaced_separated_repeat[2]", _u("spaced_separated_repeat", dig, n=2, sep=comma))
+    add("separated_repeat_at_most[2]", _u("separated_repeat_at_most", dig, n=2, sep=comma))
+    add("spaced_separated_repeat_at_most[2]", _u("spaced_separated_repeat_at_most", a, n=2, sep=comma))
+    add("spaced_cat", _n("spaced_cat", [ab, dig, _w("!")]))
+    add("spaced_cat[empty]", _n("spaced_cat", []))
+    add("separated_cat", _n("separated_cat", [ab, dig, a], sep=comma))
+    add("spaced_separated_cat", _n("spaced_separated_cat", [a, b_], sep=comma))
+    add("delimited", {"op": "delimited", "x": _u("list", dig), "open": _w("("), "close": _w(")")})
+    add("spaced_delimited", {"op": "spaced_delimited", "x": dig, "open": _w("["), "close": _w("]")})
+    # markers
+    blank3 = [0x20, 0x0A, 0x09]
+    tbl = [None] * 256
+    tbl[0x20], tbl[0x0A], tbl[0x09] = 1, 2, 3
+    add("mark_bytes", _u("list", _u("mark_bytes", anyb, set=blank3, m=1)))
+    add("mark", _u("list", _u("mark", anyb, table=tbl)))
+    tbl2 = [None] * 256
+    for x in range(0x61, 0x7B):
+        tbl2[x] = 1
+    add("mark[over-structure]", _u("mark", _n("separated_cat", [_w("["), _u("separated_list", _w("hello"), sep={"op": "blanks_strict"}), _w("]")], sep={"op": "blanks"}), table=tbl2))
+    add("mark_bytes[erase]", _u("mark_bytes", _u("mark_bytes", _u("list", abc), set=[97, 98], m=2), set=[97], m=0))
+    add("replace_markers", _u("replace_markers", _n("cat", [_u("mark_bytes", a, set=[97], m=1), _u("mark_bytes", _u("list", b_), set=[98], m=2), c_]), map=[[1, 5], [2, 1]]))
+    add("replace_markers[zero]", _u("replace_markers", _n("cat", [_u("mark_bytes", a, set=[97], m=1), b_]), map=[[0, 3]]))
+    add("mark[separated_list]", _u("separated_list", _u("mark_bytes", _u("non_empty_list", a), set=[97], m=1), sep=b_))
+    add("and[marked,unmarked]", _bin("and", _n("separated_cat", [_w("hi"), _w("yo")], sep={"op": "blanks_strict"}), _u("list", _u("mark", anyb, table=tbl))))
+    add("minus[marked]", _bin("minus", _u("list", _u("mark_bytes", abc, set=[97], m=1)), _n("cat", [{"op": "any"}, _w("cc"), {"op": "any"}])))
+    add("mark[same-byte-two-markers]", _n("cat", [_u("mark_bytes", a, set=[97], m=1), _u("list", b_), _u("mark_bytes", a, set=[97], m=2)]))
+    add("mark[ambiguous]", _bin("or", _u("mark_bytes", ab, set=[97], m=1), _u("mark_bytes", ab, set=[97], m=2)))
+    # every word has ONE marking, but the marker of 'a' depends on the next byte: no letter-to-letter
+    # deterministic transducer exists, the compiler must refuse
+    add("mark[lookahead]", _bin("or", _n("cat", [_u("mark_bytes", a, set=[97], m=1), b_]), _n("cat", [_u("mark_bytes", a, set=[97], m=2), c_])))
+    return F
+
+
+# probes of constructs on which a defect was found while building the engine; each has its own role key
+DEFECT_PROBES = [
+    ("json_string", "regex:json_string", {"op": "json_string"}),
+    ("any", "regex:any", {"op": "any"}),
+    ("any[list]", "regex:any", {"op": "list", "x": {"op": "any"}}),
+    ("neg[epsilon]", "regex:neg-of-transitionless", {"op": "neg", "x": {"op": "epsilon"}}),
+    ("neg[empty]", "regex:neg-of-transitionless", {"op": "neg", "x": {"op": "union", "xs": []}}),
+    ("minus[epsilon]", "regex:neg-of-transitionless", {"op": "minus", "x": {"op": "list", "x": _b('a')}, "y": {"op": "epsilon"}}),
+    ("mark[any]", "regex:mark-over-any-or-neg", {"op": "mark_bytes", "x": {"op": "cat", "xs": [_b('a'), {"op": "any"}]}, "set": [97], "m": 1}),
+    ("mark[neg]", "regex:mark-over-any-or-neg", {"op": "mark_bytes", "x": {"op": "neg", "x": _w("b")}, "set": [97], "m": 1}),
+]
+
+
+def random_family(seed, count, depth):
+    """seeded random ASTs over a small alphabet (so that sub-languages interact)."""
+    rnd = random.Random(seed * 7919 + depth)
+    small = [ord('a'), ord('b'), ord('c'), ord('0'), ord(' '), ord(',')]
+
+    def leaf():
+        k = rnd.randrange(9)
+        if k == 0:
+            return _b(rnd.choice(small))
+        if k == 1:
+            return _b(*rnd.sample(small, rnd.randrange(2, 4)))
+        if k == 2:
+            return _w("".join(chr(rnd.choice(small[:3])) for _ in range(rnd.randrange(1, 4))))
+        if k == 3:
+            return {"op": "byte_not_from", "set": rnd.sample(small, 2)}
+        if k == 4:
+            return {"op": rnd.choice(["digit", "one_blank", "blanks", "any_byte", "epsilon"])}
+        if k == 5:
+            return _n("cat", [{"op": "any"}, _b(rnd.choice(small[:3]))])
+        return _b(*rnd.sample(small[:4], 2))
+
+    def gen(d):
+        if d == 0 or rnd.random() < 0.15:
+            return leaf()
+        k = rnd.randrange(20)
+        x = lambda: gen(d - 1)
+        if k < 3:
+            return _n("cat", [x() for _ in range(rnd.randrange(2, 4))])
+        if k < 5:
+            return _n("union", [x() for _ in range(rnd.randrange(2, 4))])
+        if k == 5:
+            return _bin("and", x(), x())
+        if k == 6:
+            return _bin("minus", x(), x())
+        if k == 7:
+            return _u("neg", x())
+        if k == 8:
+            return _u(rnd.choice(["list", "non_empty_list", "optional"]), x())
+        if k == 9:
+            return _u(rnd.choice(["spaced_list", "spaced_non_empty_list"]), x())
+        if k == 10:
+            return _u(rnd.choice(["separated_list", "separated_non_empty_list", "spaced_separated_list", "spaced_separated_non_empty_list"]), x(), sep=leaf())
+        if k == 11:
+            return _u(rnd.choice(["repeat", "repeat_at_most", "spaced_repeat", "spaced_repeat_at_most"]), x(), n=rnd.randrange(0, 4))
+        if k == 12:
+            return _u(rnd.choice(["separated_repeat", "separated_repeat_at_most", "spaced_separated_repeat", "spaced_separated_repeat_at_most"]), x(), n=rnd.randrange(0, 3), sep=leaf())
+        if k == 13:
+            return _n(rnd.choice(["spaced_cat", "separated_cat", "spaced_separated_cat"]), [x(), x()], sep=leaf())
+        if k == 14:
+            return {"op": rnd.choice(["delimited", "spaced_delimited"]), "x": x(), "open": leaf(), "close": leaf()}
+        if k in (15, 16):
+            return _u("mark_bytes", x(), set=rnd.sample(small, rnd.randrange(1, 3)), m=rnd.randrange(0, 4))
+        if k == 17:
+            return _u("replace_markers", x(), map=[[rnd.randrange(1, 4), rnd.randrange(0, 4)]])
+        if k == 18:
+            return _bin(rnd.choice(["terminated", "spaced_terminated", "or"]), x(), x())
+        return _n("inter", [x(), x()])
+
+    def size(j):
+        if isinstance(j, dict):
+            return 1 + sum(size(v) for v in j.values())
+        if isinstance(j, list):
+            return sum(size(v) for v in j)
+        return 0
+
+    out, tries = [], 0
+    while len(out) < count and tries < count * 200:
+        tries += 1
+        r = gen(depth)
+        if size(r) > 40:
+            continue
+        try:
+            p = prim(r)
+            # keep clear of the constructs with a known defect (they have their own probes) so that the
+            # random members test everything else
+            if _touches_defect(p):
+                continue
+            lower(p)
+        except Outside:
+            continue
+        out.append((f"random[d{depth},{len(out)}]", "regex:random", r))
+    return out
+
+
+def _touches_defect(p):
+    """prim tree uses a complement of a transition-less language, a bare `any`, or a relabelled universe."""
+    t = p[0]
+    if t == 'S':
+        return False
+    if t in 'CUI':
+        return any(_touches_defect(x) for x in p[1])
+    if t == 'P':
+        return _touches_defect(p[1])
+    if t == 'A':
+        return {c >> 8 for c in p[1]} != {0}
+    if t == 'N':
+        if {c >> 8 for c in p[2]} != {0}:
+            return True
+        return _no_letters(p[1]) or _touches_defect(p[1])
+    return False
+
+
+def _no_letters(p):
+    """language is {} or {eps} (its automaton has no transition)."""
+    t = p[0]
+    if t == 'S':
+        return not p[1]
+    if t == 'C':
+        return any(_empty(x) for x in p[1]) or all(_no_letters(x) for x in p[1])
+    if t == 'U':
+        return all(_no_letters(x) for x in p[1])
+    if t == 'I':
+        return any(_no_letters(x) for x in p[1])
+    if t == 'P':
+        return _no_letters(p[1])
+    if t == 'A':
+        return not p[1]
+    return False
+
+
+def _empty(p):
+    t = p[0]
+    if t == 'S':
+        return not p[1]
+    if t == 'C':
+        return any(_empty(x) for x in p[1])
+    if t == 'U':
+        return all(_empty(x) for x in p[1])
+    if t == 'P':
+        return _empty(p[1])
+    return False
+
+
+# ==================================================================================================
+# engine C with the `ax` extractor (C19 in-circuit half): same pipeline as cengine.decide
+# ==================================================================================================
+from . import csmt, cengine                      # noqa: E402
+
+
+def c_extract(family, op, params, ins, k, P=csmt.P_BLS):
+    build()
+    p = subprocess.run([AXBIN] + cengine.cx_args(family, op, params, ins, k), capture_output=True, text=True)
+    if p.returncode != 0 or not p.stdout.strip():
+        raise cengine.ExtractError(f"ax failed for {family}/{op} {cengine.pstr(params)} in={ins}: {p.stderr[-1200:]}")
+    return csmt.System(json.loads(p.stdout), P)
+
+
+def c_replay(family, op, params, ins, k, overrides):
+    path = _tmpjson(overrides)
+    try:
+        p = subprocess.run([AXBIN] + cengine.cx_args(family, op, params, ins, k) + [f"replay={path}"], capture_output=True, text=True)
+        if p.returncode != 0:
+            return None, p.stderr[-800:]
+        return json.loads(p.stdout), ""
+    finally:
+        os.unlink(path)
+
+
+RFC4648_VAL = ("(define-fun rfc_b64 ((c Int)) Int (ite (and (<= 65 c) (<= c 90)) (- c 65) (ite (and (<= 97 c) (<= c 122)) (- c 71) "
+               "(ite (and (<= 48 c) (<= c 57)) (+ c 4) (ite (= c 43) 62 (ite (= c 47) 63 (- 1)))))))")
+
+
+def b64_factor(rows):
+    """rows of a 2-column table -> one-character function f with table = {(256a+b, 64f(a)+f(b))}, or None.
+    Exact check on the dumped table."""
+    pairs = {(r[0], r[1]) for r in rows}
+    f = {}
+    for ch, v in pairs:
+        a, b = ch >> 8, ch & 255
+        va, vb = v >> 6, v & 63
+        if ch >= 65536 or v >= 4096 or f.setdefault(a, va) != va or f.setdefault(b, vb) != vb:
+            return None
+    if pairs != {(256 * a + b, 64 * f[a] + f[b]) for a in f for b in f}:
+        return None
+    return f
+
+
+def table_fun_smt(name, f):
+    chain = "(- 1)"
+    for a in sorted(f, reverse=True):
+        chain = f"(ite (= c {a}) {f[a]} {chain})"
+    return f"(define-fun {name} ((c Int)) Int {chain})"
+
+
+class B64Enc(csmt.Enc):
+    """csmt.Enc whose two-column lookups into a table that factors as a product
+        {(256 a + b, 64 f(a) + f(b)) : a, b in D}
+    (the two-characters Base64 table) are encoded through the one-character function f extracted from
+    the dumped table itself; the factorisation is checked exactly on the dump on every run, otherwise
+    the generic relational encoding of csmt.Enc is used. When `alphabet_lemma` is set (the obligation
+    `forall c in [0,255]: f(c) = RFC 4648 value of c, -1 when c is not in the alphabet` was decided HOLDS
+    by the solver in this run, see C19_C.table_lemma) f is written as that RFC function, which is then the
+    same term on the system side and on the specification side."""
+    alphabet_lemma = False
+
+    def table_pred(self, lk, table, rows, symidx, atoms):
+        if len(symidx) != 2 or len(rows[0]) != 2:
+            return super().table_pred(lk, table, rows, symidx, atoms)
+        key = ("b64fac", lk["name"])
+        if key not in self.monos:
+            self.monos[key] = b64_factor(rows)
+        f = self.monos[key]
+        if f is None:
+            return super().table_pred(lk, table, rows, symidx, atoms)
+        key = ("b64f", lk["name"])
+        name = self.monos.get(key)
+        if name is None:
+            if self.alphabet_lemma:
+                name = "rfc_b64"
+                self.lines.append(RFC4648_VAL)
+            else:
+                name = f"tf{len(self.monos)}"
+                self.lines.append(table_fun_smt(name, f))
+            self.monos[key] = name
+        x0, x1 = atoms
+        a = b = None
+        for item in self.order:
+            if item[0] == "mod" and item[1] == x0 and item[3] == 0 and sorted(c for c, _ in item[2]) == [1, 256]:
+                d = {c: n for c, n in item[2]}
+                if self.bound(d[256]) <= 256 and self.bound(d[1]) <= 256:
+                    a, b = d[256], d[1]
+        if a is None:
+            a = self.fresh("ta", 0, 255)
+            b = self.fresh("tb", 0, 255)
+            self.lines.append(f"(assert (= {x0} (+ (* 256 {a}) {b})))")
+        self.lines.append(f"(assert (and (>= ({name} {a}) 0) (>= ({name} {b}) 0) (= {x1} (+ (* 64 ({name} {a})) ({name} {b})))))")
+        self.set_bound(x0, 65536)
+        self.set_bound(x1, 4096)
+
+
+def c_decide(run, ob, family, op, params, ins, spec, k=10, timeout=60, enc_cls=csmt.Enc, P=csmt.P_BLS, twin=True):
+    """`forall assignment. Sys => Spec` for one circuit extracted by `ax` (mirrors cengine.decide).
+    spec(e, I, O, system) -> SMT Bool."""
+    try:
+        system = c_extract(family, op, params, ins, k, P)
+    except cengine.ExtractError as ex:
+        return ob.set(INCONCLUSIVE, f"extraction failed: {ex}")
+    d = system.d
+    try:
+        honest = system.honest_assign()
+    except AssertionError as ex:
+        return ob.set(INCONCLUSIVE, f"honest run inconsistent: {ex}")
+    bad = system.check_exact(honest)
+    if d["honest_verify"] and bad:
+        return ob.set(INCONCLUSIVE, f"extractor/encoder disagree with MockProver on the honest run: {bad[:3]}")
+    cx = cengine.cx_args(family, op, params, ins, k)
+    if not d["honest_verify"]:
+        ob.key = ob.key + ":honest-rejected"
+        path = run.write_replay(ob, dict(kind="c19-honest-rejected", ax=cx))
+        return ob.set(VIOLATION, f"real MockProver rejects the honest witness of {op} {cengine.pstr(params)} on admissible inputs {ins}", replay=path)
+    e = enc_cls(system)
+    try:
+        e.encode(False)
+        Iat = [e.v(c) for c in system.ins]
+        Oat = [e.v(c) for c in system.outs]
+        spec_smt = spec(e, Iat, Oat, system)
+        e.assoc_lemmas()
+    except NotImplementedError as ex:
+        return ob.set(INCONCLUSIVE, f"untranslatable: {ex}")
+    names = sorted(set(e.vars.values()))
+    pins = [f"(assert (= {n} {honest[c]}))" for c, n in e.vars.items() if c in honest]
+    r = solvers.solve(e.text(pins + ([f"(assert {spec_smt})"] if twin else [])), timeout=timeout)
+    ob.queries += 1
+    ob.solver_s += r.time_s
+    if r.status != "sat":
+        return ob.set(INCONCLUSIVE, f"vacuity twin (honest assignment satisfies encoding and spec) came back {r.status}: {r.raw[:200]}")
+    ob.vacuity = True
+    extra = [f"(assert (not {spec_smt}))"]
+    for rnd in range(6):
+        atoms = names + [it[1] for it in e.order]
+        r = solvers.solve(e.text(extra), timeout=timeout, get_values=atoms)
+        ob.queries += 1
+        ob.solver_s += r.time_s
+        if r.status == "unsat":
+            return ob.set(HOLDS, solver=r.solver)
+        if r.status != "sat":
+            return ob.set(INCONCLUSIVE, f"solver: {r.status} {r.raw[:200]} {r.per_solver}")
+        model = r.model
+        assign = {n: model.get(n, 0) % P for n in names}
+        cls_assign = {c: assign[n] for c, n in e.vars.items()}
+        for c in system.used_classes():
+            cls_assign.setdefault(c, honest.get(c, 0))
+        exact = e.exact_atoms(assign)
+        bad = system.check_exact(cls_assign)
+        wrong = [it for it in e.order if it[0] == "mul" and model.get(it[1]) is not None and model[it[1]] != exact[it[1]]]
+        if not bad:
+            pins = [f"(assert (= {n} {v}))" for n, v in exact.items()]
+            r2 = solvers.solve(e.text(pins + extra), timeout=timeout)
+            ob.queries += 1
+            if r2.status == "sat":
+                ov = cengine.overrides_from_model(system, e, model)
+                res, err = c_replay(family, op, params, ins, k, ov)
+                iv = {c: cls_assign.get(system.cls(c), system.const.get(system.cls(c), 0)) for c in system.ins + system.outs}
+                ivs = f"in={[iv[c] for c in system.ins]} out={[iv[c] for c in system.outs]}"
+                if res and res.get("accepted"):
+                    path = run.write_replay(ob, dict(kind="c19-forged-assignment", ax=cx, overrides=ov, instance={c: hex(v) for c, v in iv.items()},
+                                                     note="real MockProver::verify() accepts this assignment although the (inputs, outputs) on the instance column violate the specification"))
+                    return ob.set(VIOLATION, f"{op} {cengine.pstr(params)}: the real MockProver accepts {ivs}, which violates the specification", solver=r.solver, replay=path)
+                return ob.set(INCONCLUSIVE, f"exact counterexample did not replay on MockProver: {res} {err}")
+            if r2.status != "unsat":
+                return ob.set(INCONCLUSIVE, f"ground re-check: {r2.status}")
+        if not wrong and bad:
+            return ob.set(INCONCLUSIVE, f"model violates real constraints {bad[:2]} but no abstract product is wrong (encoder bug?)")
+        for _, t, a, b in wrong[:40]:
+            va, vb = exact[a] if not isinstance(a, int) else a, exact[b] if not isinstance(b, int) else b
+            q1 = e.fresh("q", 0, P)
+            e.lines.append(f"(assert (=> (= {a} {va}) (= {t} (- (* {va} {b}) (* {P} {q1})))))")
+            if a != b:
+                q2 = e.fresh("q", 0, P)
+                e.lines.append(f"(assert (=> (= {b} {vb}) (= {t} (- (* {vb} {a}) (* {P} {q2})))))")
+    return ob.set(INCONCLUSIVE, "refinement rounds exhausted")
+
+
+def c_replay_payload(payload):
+    """replay of a C19 engine-C counterexample on the real MockProver (hook H2)."""
+    build()
+    if payload["kind"] == "c19-honest-rejected":
+        p = subprocess.run([AXBIN] + payload["ax"], capture_output=True, text=True)
+        out = json.loads(p.stdout) if p.returncode == 0 and p.stdout.strip() else {"error": p.stderr[-500:]}
+        print("honest_verify:", out.get("honest_verify"), out.get("error", ""))
+        return 1 if out.get("honest_verify") is False else 0
+    path = _tmpjson(payload["overrides"])
+    try:
+        p = subprocess.run([AXBIN] + payload["ax"] + [f"replay={path}"], capture_output=True, text=True)
+        out = json.loads(p.stdout) if p.returncode == 0 and p.stdout.strip() else {"error": p.stderr[-500:]}
+        print("real MockProver verdict on the forged assignment:", out, "instance:", payload.get("instance"))
+        return 1 if out.get("accepted") else 0
+    finally:
+        os.unlink(path)
